@@ -33,7 +33,7 @@ MAX_ASSIGNMENTS = 24
 class Run:
     __slots__ = ("sc", "recs", "regw", "fslog", "fired", "sched", "digest", "capped",
                  "nsteps", "nswitch", "mid_switches", "overlaps", "sites", "explicit", "pool_obs",
-                 "pool_fold", "results", "barriers", "matched", "relaxed_ops")
+                 "pool_fold", "results", "barriers", "matched", "relaxed_ops", "pool_zlog", "zobjs")
 
     def __init__(self):
         self.recs = {}
@@ -44,6 +44,31 @@ class Run:
         self.fired = []
 
 
+def _mock_token():
+    """token (world.ZONE_HISTORY) of the zone object currently set as mock local zone, if a named one"""
+    m = _ltz._mock_local_timezone
+    return None if m is None else ZONE_HISTORY["tokens"].get(id(m))
+
+
+def mock_tokens(run, rec):
+    """zone key -> tokens of the objects that were the mock local zone under that key at the op's
+    invoke or during it (same selection as reg_candidates)"""
+    inv, ret = rec["inv"], rec["ret"]
+    writes = [w for w in run.regw if w[2] == "mock_tz"]
+    base = None
+    for w in writes:
+        if w[1] <= inv:
+            base = w
+    out = {}
+    for w in writes:
+        if w is base or (w[0] < ret and w[1] > inv):
+            if isinstance(w[3], str) and len(w) > 4 and w[4] is not None:
+                out.setdefault(w[3], [])
+                if w[4] not in out[w[3]]:
+                    out[w[3]].append(w[4])
+    return out
+
+
 def _nemesis(world: World, sched, op, rec, run):
     kind = op[1]
     val = op[2] if len(op) > 2 else None
@@ -51,24 +76,38 @@ def _nemesis(world: World, sched, op, rec, run):
         world.set_clock(val)
         rec["reg"] = ("clock", val)
     elif kind == "locale":
-        pendulum.set_locale(val)
-        rec["reg"] = ("locale", val)
+        # an unknown name is a *refused* write (the application's "try the user's language, else
+        # keep the default"): ValueError, and the register keeps its value
+        try:
+            pendulum.set_locale(val)
+        except ValueError:
+            run.fired.append(("refused_write", kind, "N", None))
+        else:
+            rec["reg"] = ("locale", val)
     elif kind == "week_start":
-        pendulum.week_starts_at(pendulum.WeekDay(val))
-        rec["reg"] = ("week_start", val)
+        try:
+            pendulum.week_starts_at(pendulum.WeekDay(val) if 0 <= val <= 6 else val)
+        except ValueError:
+            run.fired.append(("refused_write", kind, "N", None))
+        else:
+            rec["reg"] = ("week_start", val)
     elif kind == "week_end":
-        pendulum.week_ends_at(pendulum.WeekDay(val))
-        rec["reg"] = ("week_end", val)
+        try:
+            pendulum.week_ends_at(pendulum.WeekDay(val) if 0 <= val <= 6 else val)
+        except ValueError:
+            run.fired.append(("refused_write", kind, "N", None))
+        else:
+            rec["reg"] = ("week_end", val)
     elif kind == "mock_tz":
         tz = None if val is None else World.zone(val)
         pendulum.set_local_timezone(tz)
         rec["reg"] = ("mock_tz", val)
+        rec["reg_tok"] = _mock_token()
     elif kind == "cal_fwd":
         calendar.setfirstweekday(val)
         rec["reg"] = ("cal_fwd", val)
     elif kind == "clear_zone_cache":
         Timezone.clear_cache()
-        ZONE_HISTORY["epoch"] += 1
     elif kind == "fs_put":
         world.fs.put(op[2], op[3])
         rec["fs"] = True
@@ -102,7 +141,11 @@ def simulate(sc, full_digest=True) -> Run:
     run.sched = sched
     gc.disable()
     try:
-        pool = [build(s, None) for s in sc.get("pool", [])]
+        run.pool_zlog = ZONE_HISTORY["log"][threading.get_ident()] = []
+        try:
+            pool = [build(s, None) for s in sc.get("pool", [])]
+        finally:
+            ZONE_HISTORY["log"].pop(threading.get_ident(), None)
         # only for pools of values without lazily filled slots (DateTime/Date): the scenario asks for it
         if sc.get("observe_pool") == "fresh-copy":
             # observe a second instance of every pool value: the shared one stays untouched
@@ -112,6 +155,7 @@ def simulate(sc, full_digest=True) -> Run:
             run.pool_obs = [observe(v) for v in pool] if sc.get("observe_pool") else None
         run.pool_fold = [raw_fold(v) for v in pool]
         run.regw = [(0, 0, r, v) for r, v in world.regs().items()]
+        run.regw = [w + (_mock_token(),) if w[2] == "mock_tz" else w for w in run.regw]
         run.fslog = [(0, 0, fs_snapshot(world))]
         inflight = {}
 
@@ -154,13 +198,14 @@ def simulate(sc, full_digest=True) -> Run:
                         res = _nemesis(world, sched, op, rec, run)
                         rec["ret"] = sched.next_seq()
                         if "reg" in rec:
-                            run.regw.append((rec["inv"], rec["ret"], rec["reg"][0], rec["reg"][1]))
+                            w = (rec["inv"], rec["ret"], rec["reg"][0], rec["reg"][1])
+                            run.regw.append(w + (rec["reg_tok"],) if "reg_tok" in rec else w)
                         if rec.get("fs"):
                             run.fslog.append((rec["inv"], rec["ret"], fs_snapshot(world)))
                         rec["obs"] = None
                         results.append(None)
                     else:
-                        zl = ZONE_HISTORY["log"][threading.get_ident()] = [ZONE_HISTORY["epoch"]]
+                        zl = ZONE_HISTORY["log"][threading.get_ident()] = []
                         try:
                             res = execute(op, env)
                         except Skip:
@@ -171,7 +216,7 @@ def simulate(sc, full_digest=True) -> Run:
                             res = e
                         finally:
                             ZONE_HISTORY["log"].pop(threading.get_ident(), None)
-                        if any(zl):
+                        if zl:
                             rec["zlog"] = zl
                         results.append(res)
                         if res is Skip:
@@ -194,6 +239,7 @@ def simulate(sc, full_digest=True) -> Run:
     finally:
         world.fs.on_fire = None
         gc.enable()
+    run.zobjs = list(ZONE_HISTORY["objs"])       # token -> zone object of this run (survives the resets of the oracles)
     run.capped = sched.capped
     run.nsteps = sched.nsteps
     run.nswitch = sched.nswitch
@@ -251,11 +297,21 @@ def apply_assignment(world: World, sc, asg):
             world.set_reg(reg, val)
 
 
-def quiescent_eval(world, sc, op, asg, qres, zlog=None):
+def quiescent_eval(world, sc, op, asg, qres, zlog=None, zctx=None):
     apply_assignment(world, sc, asg)
-    pool = [build(s, None) for s in sc.get("pool", [])]
-    if zlog:
-        zone_replay(zlog)
+    mapping = None
+    if zctx is not None:
+        # the reference evaluation works with the very zone objects of the simulation
+        mapping = dict(enumerate(zctx[1]))
+        if asg.get("_mock_tok") is not None and asg["_mock_tok"] in mapping:
+            _ltz._mock_local_timezone = mapping[asg["_mock_tok"]]
+        zone_replay(zctx[0], mapping)
+    try:
+        pool = [build(s, None) for s in sc.get("pool", [])]
+    finally:
+        zone_replay_end()
+    if mapping is not None:
+        zone_replay(zlog or [], mapping)
     try:
         res = execute(op, Env(pool, qres))
     except Skip:
@@ -302,6 +358,12 @@ def l1_check(run: Run, prop=None):
             if prop is not None and hasattr(prop, "extend_candidates"):
                 relaxed = bool(prop.extend_candidates(run, rec, op, cands))
             asgs = assignments(cands)
+            if asgs:
+                # the mock local zone is an *object*: the reference uses the one the simulation had
+                mt = mock_tokens(run, rec)
+                if mt:
+                    asgs = [dict(a, _mock_tok=t) if a.get("mock_tz") in mt else a
+                            for a in asgs for t in (mt.get(a.get("mock_tz")) or [None])]
             stats["l1_ops"] += 1
             if asgs is None:
                 stats["l1_unchecked"] += 1
@@ -313,7 +375,7 @@ def l1_check(run: Run, prop=None):
             expected = []
             undecidable = False
             for asg in asgs:
-                res, o = quiescent_eval(world, sc, op, asg, qres, rec.get("zlog"))
+                res, o = quiescent_eval(world, sc, op, asg, qres, rec.get("zlog"), (run.pool_zlog, run.zobjs))
                 stats["l1_evals"] += 1
                 if res is Skip:
                     # an input is the result of an earlier op of this client that was itself
